@@ -22,7 +22,7 @@ static bool load_expect(const std::string & path, Expect & x)
 }
 static int nines_of(double v) { int k = 0; double b = 0.9; while (k < 16 && v >= b) { k++; b = 1.0 - std::pow(10.0, -(k + 1)); } return k; }
 
-struct Out { bool ok = true; std::string cls, msg; long pairs = 0; int max_caret = 0; bool has_one = false; };
+struct Out { bool ok = true; std::string cls, msg; long pairs = 0; int max_caret = 0; bool has_one = false; bool slow_rejection = false; };
 static void fail(Out & o, const std::string & c, const std::string & m) { if (o.ok) { o.ok = false; o.cls = c; o.msg = m; } }
 
 int main(int argc, char ** argv)
@@ -98,7 +98,10 @@ int main(int argc, char ** argv)
         for (int k = 0; k < 200 && o.ok; k++) {
           Tape t; t.seed = mix(seed, 7000 + k + method * 1000); TapeRandom ra(t, 0, 100000), rb(t, 0, 100000);
           double e1, e2, c12; bxdecay0::event ev;
-          try { h.shoot_e1_e2(ra, e1, e2); h.shoot_cos_theta(ra, e1, e2, c12); h.shoot(rb, ev); } catch (TapeOverrun &) { fail(o, "sample-unbounded", "sampler needs more than 100000 deviates"); break; }
+          try { h.shoot_e1_e2(ra, e1, e2); h.shoot_cos_theta(ra, e1, e2, c12); h.shoot(rb, ev); } catch (TapeOverrun &) {
+            // rejection sampling of a very peaked table is legitimately slow (efficiency = mean/max of the p.d.f.): not a C14 matter
+            if (method) { o.slow_rejection = true; break; }
+            fail(o, "sample-unbounded", "inverse-transform sampler needs more than 100000 deviates"); break; }
           if (!(e1 >= 0 && e2 >= 0) || e1 + e2 > x.qbb * (1 + 1e-12)) { fail(o, method ? "rejection-domain" : "sample-above-max", "e1=" + jnum(e1) + " e2=" + jnum(e2) + " outside the kinematic domain (Q=" + jnum(x.qbb) + ")"); break; }
           const auto & ps = ev.get_particles();
           if (ps.size() != 2 || !ps[0].is_electron() || !ps[1].is_electron()) { fail(o, "event-shape", "shoot() does not yield exactly two electrons"); break; }
@@ -124,6 +127,6 @@ int main(int argc, char ** argv)
       }
     }
   }
-  printf("{\"ok\":%s,\"cls\":%s,\"msg\":%s,\"pairs\":%ld,\"max_caret\":%d,\"has_one\":%s}\n", o.ok ? "true" : "false", jstr(o.cls).c_str(), jstr(o.msg).c_str(), o.pairs, o.max_caret, o.has_one ? "true" : "false");
+  printf("{\"ok\":%s,\"cls\":%s,\"msg\":%s,\"pairs\":%ld,\"max_caret\":%d,\"has_one\":%s,\"slow_rejection\":%s}\n", o.ok ? "true" : "false", jstr(o.cls).c_str(), jstr(o.msg).c_str(), o.pairs, o.max_caret, o.has_one ? "true" : "false", o.slow_rejection ? "true" : "false");
   return o.ok ? 0 : 1;
 }
